@@ -245,8 +245,8 @@ def rotate_vector_around_an_axis(theta: float, axis: Vector, vec: Vector) -> Vec
     gamma = 0.0
     if axis.y != 0:
         if axis.x != 0:
-            gamma = -axis.x/abs(axis.x)*math.asin(
-                axis.y/(math.sqrt(axis.x*axis.x + axis.y*axis.y)))
+            gamma = -math.copysign(1.0, axis.x)*math.atan2(
+                axis.y, abs(axis.x))
         else:
             gamma = math.pi/2.0
         rot_z = rotate_atoms_around_z_axis(gamma)
@@ -254,8 +254,8 @@ def rotate_vector_around_an_axis(theta: float, axis: Vector, vec: Vector) -> Vec
         axis = rot_z @ axis
     beta = 0.0
     if axis.x != 0:
-        beta = -axis.x/abs(axis.x)*math.acos(
-            axis.z/math.sqrt(axis.x*axis.x + axis.z*axis.z))
+        beta = -math.copysign(1.0, axis.x)*math.atan2(
+            abs(axis.x), axis.z)
         rot_y = rotate_atoms_around_y_axis(beta)
         vec = rot_y @ vec
         axis = rot_y @ axis
